@@ -796,9 +796,20 @@ func caseD(c caseT) {
 		violation("graphql.Do panicked", c, det)
 		return
 	}
+	// resolver-supplied *gqlerrors.Error pointers are relayed as given (outside the property): weaker oracle inside splitForeignPointer
+	resErrors, failed, relayed, fnote := splitForeignPointer(res, w)
+	if fnote != "" {
+		run.Case("d|"+body, false, nil)
+		det["errors"] = res.Errors
+		violation(fnote, c, det)
+		return
+	}
+	if relayed > 0 {
+		run.Res.Histogram["d:relayed-resolver-supplied-located-error(weaker oracle)"] += relayed
+	}
 	var gotPaths []string
 	pathless := 0
-	for _, e := range res.Errors {
+	for _, e := range resErrors {
 		if e.Path == nil {
 			pathless++
 			continue
@@ -819,12 +830,12 @@ func caseD(c caseT) {
 		run.CheckError("stream d document was rejected before execution: " + res.Errors[0].Message + " " + strconv.Quote(body))
 		return
 	}
-	want := append([]string{}, w.failed...)
+	want := append([]string{}, failed...)
 	sort.Strings(want)
 	sortedGot := append([]string{}, gotPaths...)
 	sort.Strings(sortedGot)
 	deep, inList, merged := false, false, false
-	for _, e := range res.Errors {
+	for _, e := range resErrors {
 		if len(e.Path) >= 3 {
 			deep = true
 		}
@@ -863,7 +874,7 @@ func caseD(c caseT) {
 		violation("the paths of the field errors are not exactly the response positions at which resolvers failed", c, det)
 		return
 	}
-	for _, e := range res.Errors {
+	for _, e := range resErrors {
 		ps, lastKey, ok := pathString(e.Path)
 		det["error"] = map[string]interface{}{"message": e.Message, "path": e.Path, "locations": e.Locations}
 		if !ok {
@@ -1016,13 +1027,57 @@ func verdictValidation(body string, expect []int, errs []gqlerrors.FormattedErro
 	return "", nil
 }
 
+// splitForeignPointer applies the weaker oracle for errors the library only relays (decision of the lead: a resolver that returns
+// or panics with a *gqlerrors.Error POINTER hands over an already located error; its locations and path are user data, outside
+// C18; the same pass-through carries the executor's own errors upwards): for every address whose resolver returned / panicked with a hand-built *gqlerrors.Error POINTER, if the response carries
+// that very error with exactly its foreign locations (1:21 of another document) and foreign path [x 7 y], both the error and
+// the address are taken out (and the data at the address must still be null). Everything else stays for the ordinary oracles.
+func splitForeignPointer(res *graphql.Result, w *world) (errs []gqlerrors.FormattedError, failed []string, known int, note string) {
+	errs = append(errs, res.Errors...)
+	failed = append(failed, w.failed...)
+	for _, a := range w.foreignPtr {
+		for i, e := range errs {
+			if e.Message != "hand built "+a {
+				continue
+			}
+			if hx.Canon(e.Path) == hx.Canon(foreignPath) && hx.Canon(locsOf(e)) == hx.Canon([]loc{{1, 21}}) {
+				var ap []interface{}
+				for _, k := range strings.Split(a, "/")[1:] {
+					if n, err := strconv.Atoi(k); err == nil {
+						ap = append(ap, n)
+					} else {
+						ap = append(ap, k)
+					}
+				}
+				if ok, why := nullAtPathOrPrefix(res.Data, ap); !ok {
+					return errs, failed, known, "field at " + a + " failed with a passed-through error but " + why
+				}
+				errs = append(errs[:i:i], errs[i+1:]...)
+				for j, f := range failed {
+					if f == a {
+						failed = append(failed[:j:j], failed[j+1:]...)
+						break
+					}
+				}
+				known++
+			}
+			break
+		}
+	}
+	return errs, failed, known, ""
+}
+
 // verdictExecution judges the result of ExecutePlan against the layout `body`: paths = failed positions, null at
 // path or prefix, locations = starts of the field nodes with the response key in this request's text.
 func verdictExecution(body string, marks map[string][]int, res *graphql.Result, w *world) (string, map[string]interface{}) {
 	lc := gen.NewLineCol(body)
 	det := map[string]interface{}{"failed_positions": w.failed, "data": res.Data}
 	got := []string{}
-	for _, e := range res.Errors {
+	resErrors, failed, _, fnote := splitForeignPointer(res, w)
+	if fnote != "" {
+		return fnote, det
+	}
+	for _, e := range resErrors {
 		if e.Path == nil {
 			det["errors"] = res.Errors
 			return "an error of an executed request carries no path", det
@@ -1031,13 +1086,13 @@ func verdictExecution(body string, marks map[string][]int, res *graphql.Result, 
 		got = append(got, s)
 	}
 	det["error_paths"] = got
-	want := append([]string{}, w.failed...)
+	want := append([]string{}, failed...)
 	sort.Strings(want)
 	sort.Strings(got)
 	if hx.Canon(got) != hx.Canon(want) {
 		return "the paths of the field errors are not exactly the response positions at which resolvers failed", det
 	}
-	for _, e := range res.Errors {
+	for _, e := range resErrors {
 		ps, lastKey, _ := pathString(e.Path)
 		det["error"] = map[string]interface{}{"message": e.Message, "path": e.Path, "locations": e.Locations}
 		if ok, why := nullAtPathOrPrefix(res.Data, e.Path); !ok {
